@@ -221,7 +221,7 @@ DecTx(t) ==
   ELSE Fail                                                                \* flag not in {0,1}
 
 \* deserialize = decode and require that nothing is left; deserialize_partial reports what was consumed
-Deserialize(Dec(_), t) == LET r == Dec(t) IN IF r.ok /\ Len(r.rest) = 0 THEN r ELSE Fail
+DeserializeAll(Dec(_), t) == LET r == Dec(t) IN IF r.ok /\ Len(r.rest) = 0 THEN r ELSE Fail
 Consumed(t, r) == ByteLen(t) - ByteLen(r.rest)
 
 ---------------------------------------------------------------------------
